@@ -588,6 +588,23 @@ def history_independent(r, name, fn, ctor, rec, sub):
                observed=a1[1], expected=a0[1])
 
 
+def _arrays_of(x, acc):
+    if isinstance(x, (tuple, list)):
+        for v in x:
+            _arrays_of(v, acc)
+    elif isinstance(x, np.ndarray):
+        acc.append(x)
+    elif hasattr(x, 'values') and isinstance(getattr(x, 'values', None), np.ndarray):
+        acc.append(x.values)
+    return acc
+
+
+def _aliases_input(res, args):
+    ins = _arrays_of(list(args), []) + [AUX[k] for k in AUX]
+    outs = _arrays_of(res, [])
+    return any(np.shares_memory(a, b) for a in outs for b in ins if a.size and b.size)
+
+
 def check_call(r, name, fn, args, snap_of0, sub):
     """one purity probe: snapshot, call, compare, call again, compare results"""
     def snap_of():
@@ -602,7 +619,14 @@ def check_call(r, name, fn, args, snap_of0, sub):
                 # compare the second call with a private copy of the first result, after overwriting the first result in place:
                 # a function that hands out an internal / cached array by reference does not "return the same result again"
                 keep = copy.deepcopy(out)
-                _scribble_result(out)
+                r.n_cmp += 1
+                if snap_of() != before:     # the input is judged before the result is touched
+                    r.fail('purity.input-modified', sub, '%s modified its input%s (call 1)' % (name, '' if snap_of()[0] != before[0] else ' (an auxiliary array argument)'),
+                           observed=args[0] if args else None)
+                    reset_aux()
+                    return
+                if not _aliases_input(out, args):   # a result that is a view of the caller's own input is the caller's business
+                    _scribble_result(out)
                 out = keep
             res.append(('ok', out))
         except AssertionError as e:
